@@ -36,6 +36,7 @@ From FT Require Proofs.AnnotatorsTie.
 From FT Require Model.EditCtor Proofs.EditCtor Proofs.EditCtorDict Gen.Ctor_gen Proofs.CtorTie.
 From FT Require Proofs.EditSessionsToggle.
 From FT Require Proofs.EditSessionsToggle2.
+From FT Require Proofs.EditSessionsToggle3.
 Import ListNotations.
 Open Scope Z_scope.
 
@@ -313,6 +314,13 @@ Theorem C10_sessions_with_switching_modulo_a : ltac:(let t := type of @FT.Proofs
 Proof. exact @FT.Proofs.EditSessionsToggle2.session_toggle_reachable_WF_modulo_a. Qed.
 Theorem C10_sessions_with_switching_noseg : ltac:(let t := type of @FT.Proofs.EditSessionsToggle2.session_toggle_reachable_WF_noseg in exact t).
 Proof. exact @FT.Proofs.EditSessionsToggle2.session_toggle_reachable_WF_noseg. Qed.
+(* the side condition of the modulo-(a) theorem ("no annotator features without a label array") is an invariant of
+   every mixed run, so it is asked of the start state only (Proofs/EditSessionsToggle3.v; rests on: the array
+   keeps its None-ness and shape along every run, no call changes rp_all / iou_avail) *)
+Theorem C10_noseg_cfg_is_invariant : ltac:(let t := type of @FT.Proofs.EditSessionsToggle3.run2_noseg_cfg in exact t).
+Proof. exact @FT.Proofs.EditSessionsToggle3.run2_noseg_cfg. Qed.
+Theorem C10_sessions_with_switching_modulo_a_start : ltac:(let t := type of @FT.Proofs.EditSessionsToggle3.session_toggle_reachable_WF_modulo_a_start in exact t).
+Proof. exact @FT.Proofs.EditSessionsToggle3.session_toggle_reachable_WF_modulo_a_start. Qed.
 
 Example C10_ex_hyps :
   cfg_keys c10_st /\ W_reg c10_st /\ seg c10_st = Some c10_sg /\ W_seg c10_st /\ comps_disjoint [[2]; [1]].
@@ -405,3 +413,5 @@ Print Assumptions C10_sessions_with_switching_conditional.
 Print Assumptions C10_switch_keeps_observable_equality.
 Print Assumptions C10_sessions_with_switching_modulo_a.
 Print Assumptions C10_sessions_with_switching_noseg.
+Print Assumptions C10_noseg_cfg_is_invariant.
+Print Assumptions C10_sessions_with_switching_modulo_a_start.
